@@ -26,7 +26,7 @@ LEVEL_NOTE = ("Theorems are about the Gallina model Schema/SchemaValidateModel.v
               "generated schemas, histories, type pairs and resolver signatures on every run. "
               "Direct validate_schema(.., enable_resolver_validation=b) calls are part of the histories. "
               "inspect.signature is trusted to describe a callable; assignment to Schema.default_resolver "
-              "(not a registration) bypasses the memo and is outside the quantifier.")
+              "is a history operation (it resets the memo after fix C13-05).")
 RULE = ("valid generated schemas over all six kinds (code- and SDL-built, wrappers to depth 3) with 0-4 "
         "labelled rule violations from 33 invalidators, type-order permutations, resolvers from the "
         "signature grid on fields / object defaults; register/validate histories incl. direct "
@@ -225,6 +225,10 @@ def corpus():
         ["validate_schema", True], ["validate"]]})
     out.append({"kind": "history", "spec": sp, "ops": [
         ["validate"], ["default", "Query", bad, True], ["validate_schema", False], ["validate"]]})
+    # DESIGN section 6 row 39, second half / fix C13-05: schema.default_resolver = f
+    out.append({"kind": "history", "spec": sp, "ops": [
+        ["validate"], ["assign_default", bad], ["validate"], ["assign_default", R3 + [["kw", "VK", False]]],
+        ["validate"]]})
     return out
 
 
@@ -282,6 +286,8 @@ def _history(rng, spec):
             ops.append(["validate_schema", rng.random() < 0.3])
             if rng.random() < 0.7:
                 ops.append(["validate"])
+        elif r < 0.46:
+            ops.append(["assign_default", rng.choice([R3 + [["kw", "VK", False]], R3, [["root", "PK", False]], None])])
         elif r < 0.75:
             sig = _good_or_random_sig(rng, f["args"] if f else [])
             ops.append(["resolver", tn, fn, sig, allow])
@@ -351,6 +357,15 @@ def generate(rng, tier):
                if i % 3 else ["default", td["name"], rng.choice(bad_sigs), True])
         cases.append({"kind": "history", "spec": base, "ops": pre + [
             reg, ["validate_schema", False], ["validate"], ["validate_schema", True], ["validate"]]})
+    # schema-wide default resolver reassigned between validate() calls
+    for i in range(6 if quick else 40):
+        base = dict(G.gen_valid_spec(rng, "code"), via="code")
+        if not _buildable(base):
+            continue
+        good, badr = R3 + [["kw", "VK", False]], rng.choice([[["root", "PK", False]], R3])
+        cases.append({"kind": "history", "spec": base, "ops": [
+            ["validate"], ["assign_default", badr], ["validate"], ["assign_default", good], ["validate"],
+            ["assign_default", None], ["validate"]][(i % 2):]})
     # every invalidator a few times on its own
     for k in G.INVALIDATORS:
         got = 0
@@ -419,6 +434,9 @@ def _apply_op(sch, op):
                 return ["direct_accepted"]
             except SchemaValidationError as e:
                 return ["direct_invalid", _errors(e.errors)]
+        if op[0] == "assign_default":
+            sch.default_resolver = G.make_fn(op[1])     # plain attribute assignment
+            return ["done"]
         if op[0] == "resolver":
             sch.register_resolver(op[1], op[2], G.make_fn(op[3]), allow_override=op[4])
         elif op[0] == "default":
@@ -498,6 +516,8 @@ def _cop(op):
         return "OpValidate"
     if op[0] == "validate_schema":
         return "(OpValidateSchema %s)" % ser.cbool(op[1])
+    if op[0] == "assign_default":
+        return "(OpAssignDefault %s)" % ("None" if op[1] is None else "(Some %s)" % _csig(op[1]))
     if op[0] == "resolver":
         return "(OpRegisterResolver %s %s %s %s)" % (ser.cstr(op[1]), ser.cstr(op[2]), _csig(op[3]), ser.cbool(op[4]))
     if op[0] == "default":
@@ -559,9 +579,36 @@ def canonical(case):
     return json.dumps(case, sort_keys=True)
 
 
+def _stale_only_after_assignment(case, obs):
+    """every validate() step that differs from the fresh verdict is an
+    `accepted` that follows an assignment to schema.default_resolver with no
+    registration / successful re-validation in between (the memo survived the
+    assignment) -- exactly the finding `default-resolver-assignment`"""
+    if case["kind"] != "history":
+        return False
+    stale, since_assign = 0, False
+    for op, st in zip(case["ops"], obs["steps"]):
+        if op[0] == "assign_default":
+            since_assign = True
+        elif op[0] in ("resolver", "default", "subscription") and st[0] == "done":
+            since_assign = False
+        elif op[0] == "validate":
+            fresh = st[-1][1]
+            ok = (st[0] == "accepted") == (fresh == []) and (st[0] != "invalid" or st[1] == fresh)
+            if not ok:
+                if not (st[0] == "accepted" and since_assign):
+                    return False
+                stale += 1
+        if st[0] == "exc":
+            return False
+    return stale > 0
+
+
 def classify(case, obs):
     if "exc" in obs:
         return "raises-only-schema-errors", None
+    if _stale_only_after_assignment(case, obs):
+        return "memo-recomputed", "default-resolver-assignment"
     return {"schema": "verdict-and-violations", "history": "memo-recomputed",
             "subtype": "covariance", "sig": "resolver-signature"}[case["kind"]], None
 
@@ -598,7 +645,8 @@ def direct_checks(case, obs):
             if st[0] in ("accepted", "invalid"):
                 fresh = st[-1][1]
                 if (st[0] == "accepted") != (fresh == []) or (st[0] == "invalid" and st[1] != fresh):
-                    out.append(("memo-recomputed", None))
+                    out.append(("memo-recomputed", "default-resolver-assignment"
+                                if _stale_only_after_assignment(case, obs) else None))
                     break
             if st[0] == "exc":
                 out.append(("raises-only-schema-errors: %s" % st[1], None))
